@@ -218,3 +218,105 @@ def build_gates(repo, spec_dir, canary=False):
                clauses=[Clause('class_gate.calls_conversion', (six % (('config',) * 6)) + ' ==> r', ['C03'])])
     b.emit('} // verus!\nfn main() {}')
     return b
+
+ORDER_SPEC = r'''
+pub uninterp spec fn str_cmp(a: Seq<char>, b: Seq<char>) -> Ordering;          // <String as Ord>::cmp
+pub uninterp spec fn byte_len(a: Seq<char>) -> nat;                            // String::len (UTF-8 length)
+// ASSUMED of std: String's Ord is a total order that is Equal exactly on identical strings
+pub broadcast axiom fn axiom_str_cmp_total(a: Seq<char>, b: Seq<char>)
+    ensures (#[trigger] str_cmp(a, b) == Ordering::Equal) <==> a == b,
+            (str_cmp(a, b) == Ordering::Less) <==> (str_cmp(b, a) == Ordering::Greater);
+pub broadcast axiom fn axiom_str_cmp_trans(a: Seq<char>, b: Seq<char>, c: Seq<char>)
+    requires #[trigger] str_cmp(a, b) == Ordering::Less, #[trigger] str_cmp(b, c) == Ordering::Less
+    ensures str_cmp(a, c) == Ordering::Less;
+#[verifier::external_body] pub fn vx_str_cmp(a: &String, b: &String) -> (r: Ordering) ensures r == str_cmp(a@, b@) { unimplemented!() }
+#[verifier::external_body] pub fn vx_usize_cmp(a: usize, b: usize) -> (r: Ordering)
+    ensures r == (if a < b { Ordering::Less } else if a == b { Ordering::Equal } else { Ordering::Greater }) { unimplemented!() }
+#[verifier::external_body] pub fn vx_len(a: &String) -> (r: usize) ensures r == byte_len(a@) { unimplemented!() }
+// the documented order of the test cases: by length, ties broken lexicographically
+pub open spec fn len_lex(a: Seq<char>, b: Seq<char>) -> Ordering {
+    if byte_len(a) < byte_len(b) { Ordering::Less } else if byte_len(a) > byte_len(b) { Ordering::Greater } else { str_cmp(a, b) }
+}
+pub open spec fn strictly_sorted(s: Seq<Seq<char>>) -> bool {
+    forall|i: int, j: int| 0 <= i < j < s.len() ==> len_lex(#[trigger] s[i], #[trigger] s[j]) == Ordering::Less
+}
+'''
+ORDER_LEMMAS = [('order.len_lex_no_ties', r'''pub proof fn len_lex_no_ties(a: Seq<char>, b: Seq<char>)
+    ensures (len_lex(a, b) == Ordering::Equal) <==> a == b,
+            (len_lex(a, b) == Ordering::Less) <==> (len_lex(b, a) == Ordering::Greater),
+{
+    broadcast use axiom_str_cmp_total;
+}'''), ('order.len_lex_transitive', r'''pub proof fn len_lex_trans(a: Seq<char>, b: Seq<char>, c: Seq<char>)
+    requires len_lex(a, b) == Ordering::Less, len_lex(b, c) == Ordering::Less
+    ensures len_lex(a, c) == Ordering::Less
+{
+    broadcast use axiom_str_cmp_total;
+    if byte_len(a) == byte_len(b) && byte_len(b) == byte_len(c) { axiom_str_cmp_trans(a, b, c); }
+}'''), ('order.sorted_arrangement_unique', r'''// two strictly increasing arrangements of the same set of strings are equal: the sorted, deduplicated list is a function of the SET
+pub proof fn sorted_unique(s: Seq<Seq<char>>, t: Seq<Seq<char>>)
+    requires strictly_sorted(s), strictly_sorted(t), s.to_set() == t.to_set()
+    ensures s == t
+    decreases s.len()
+{
+    broadcast use axiom_str_cmp_total;
+    if s.len() == 0 {
+        if t.len() > 0 { assert(t.to_set().contains(t[0])); assert(s.to_set().contains(t[0])); }
+        assert(s =~= t);
+    } else if t.len() == 0 {
+        assert(s.to_set().contains(s[0])); assert(t.to_set().contains(s[0]));
+    } else {
+        assert(t.to_set().contains(s[0])) by { assert(s.to_set().contains(s[0])); }
+        assert(s.to_set().contains(t[0])) by { assert(t.to_set().contains(t[0])); }
+        let i = choose|i: int| 0 <= i < t.len() && t[i] == s[0];
+        let j = choose|j: int| 0 <= j < s.len() && s[j] == t[0];
+        if i > 0 { assert(len_lex(t[0], t[i]) == Ordering::Less); }
+        if j > 0 { assert(len_lex(s[0], s[j]) == Ordering::Less); }
+        if i > 0 && j > 0 { len_lex_no_ties(s[0], t[0]); }
+        if i > 0 && j == 0 { len_lex_no_ties(t[0], t[0]); }
+        assert(s[0] == t[0]);
+        let s1 = s.drop_first(); let t1 = t.drop_first();
+        assert(strictly_sorted(s1)) by { assert forall|a: int, b: int| 0 <= a < b < s1.len() implies len_lex(#[trigger] s1[a], #[trigger] s1[b]) == Ordering::Less by { assert(s1[a] == s[a+1] && s1[b] == s[b+1]); } }
+        assert(strictly_sorted(t1)) by { assert forall|a: int, b: int| 0 <= a < b < t1.len() implies len_lex(#[trigger] t1[a], #[trigger] t1[b]) == Ordering::Less by { assert(t1[a] == t[a+1] && t1[b] == t[b+1]); } }
+        assert(s1.to_set() =~= t1.to_set()) by {
+            assert forall|x: Seq<char>| s1.to_set().contains(x) <==> t1.to_set().contains(x) by {
+                if s1.contains(x) {
+                    let k = choose|k: int| 0 <= k < s1.len() && s1[k] == x;
+                    assert(s[k + 1] == x); assert(len_lex(s[0], x) == Ordering::Less);
+                    assert(s.to_set().contains(x)); assert(t.to_set().contains(x));
+                    let m = choose|m: int| 0 <= m < t.len() && t[m] == x;
+                    if m == 0 { len_lex_no_ties(s[0], x); }
+                    assert(t1[m - 1] == x);
+                }
+                if t1.contains(x) {
+                    let k = choose|k: int| 0 <= k < t1.len() && t1[k] == x;
+                    assert(t[k + 1] == x); assert(len_lex(t[0], x) == Ordering::Less);
+                    assert(t.to_set().contains(x)); assert(s.to_set().contains(x));
+                    let m = choose|m: int| 0 <= m < s.len() && s[m] == x;
+                    if m == 0 { len_lex_no_ties(t[0], x); }
+                    assert(s1[m - 1] == x);
+                }
+            }
+        }
+        sorted_unique(s1, t1);
+        assert(s =~= seq![s[0]] + s1); assert(t =~= seq![t[0]] + t1);
+    }
+}''')]
+
+def build_order(repo, spec_dir, canary=False):
+    """C10: the comparator of RegExp::sort is the documented (length, lexicographic) order; it is a strict total order without ties,
+    so the sorted, deduplicated list is a function of the set of test cases"""
+    b = Builder('order', repo, canary)
+    b.emit('use vstd::prelude::*;\nuse std::cmp::Ordering;\nverus! {')
+    b.emit(ORDER_SPEC)
+    for label, text in ORDER_LEMMAS: b.lemma(label, ['C10'], text)
+    rx = b.src('regexp.rs')
+    f, _, _ = X.fn(rx, 'sort')
+    body, _, _ = X.match_expr_after(f, 'test_cases.sort_by(|a, b| ')
+    b.slice_fn('sort_cmp', 'pub fn sort_cmp(a: &String, b: &String) -> (r: Ordering)', '    ' + body, 'regexp.rs::sort comparator closure |a, b|', props=['C07'],
+               clauses=[Clause('order.comparator_is_len_lex', 'r == len_lex(a@, b@)', ['C10'])],
+               extra_rules=[('R11', r'\ba\.len\(\)\.cmp\(&b\.len\(\)\)', 'vx_usize_cmp(vx_len(a), vx_len(b))', 'Ord for usize (exact), String::len (uninterpreted)'),
+                            ('R11', r'\ba\.cmp\(b\)', 'vx_str_cmp(a, b)', 'Ord for String (uninterpreted total order)')])
+    b.emit('} // verus!\nfn main() {}')
+    b.trusted += ['String: Ord is a total order, Equal only on identical strings (axioms axiom_str_cmp_total / axiom_str_cmp_trans); std sort / dedup / sort_by do what their documentation says (sort_by with a strict total order yields the unique sorted arrangement)',
+                  'sort_by applies the closure as the comparator (closure plumbing dropped by the slice)']
+    return b
